@@ -125,3 +125,29 @@ Proof.
   intros Hinc L Hu. destruct (bracket_exists xv u Hinc L Hu) as [j [Hj Hb]].
   exists j. split; [exact Hj|]. split; [exact Hb|]. apply interplin_is_chord; assumption.
 Qed.
+
+(* ---- the history checker is complete as well: it accepts every observation list that satisfies history_ok *)
+Theorem history_check_complete ops : forall cur os,
+  counts_valid cur ops = true -> history_ok cur ops os -> history_check cur ops os = true.
+Proof.
+  unfold history_ok, counts_valid.
+  induction ops as [|n t IH]; intros cur os Hv [E1 E2]; destruct os as [|o ot]; simpl in E1; try discriminate; [reflexivity|].
+  simpl in Hv. apply andb_true_iff in Hv as [Hc Hv]. apply andb_true_iff in Hv as [Hn Hv].
+  assert (Hvalid : match spec_eff cur n with Some k => (0 <? k)%Z = true | None => True end).
+  { destruct n as [k|]; simpl; [exact Hn|]. destruct cur as [k|]; [exact Hc | exact Logic.I]. }
+  injection E1 as Eo Et. inversion E2 as [|? ? Hb Hbt]; subst.
+  cbn [history_check]. apply andb_true_iff. split.
+  - unfold obs_ok. destruct (spec_eff cur n) as [m|]; destruct o as [[k [r fr]]|e]; simpl in Eo, Hb |- *.
+    + unfold G_count in Eo. destruct (m <=? 0)%Z eqn:Em; [lia|]. injection Eo as ->.
+      rewrite Z.eqb_refl. exact Hb.
+    + unfold G_count in Eo. destruct (m <=? 0)%Z eqn:Em; [lia | discriminate].
+    + discriminate.
+    + reflexivity.
+  - apply IH; [|split; assumption].
+    simpl. apply andb_true_iff. split; [|exact Hv].
+    destruct (spec_eff cur n); [exact Hvalid | reflexivity].
+Qed.
+
+Theorem history_check_iff ops cur os : counts_valid cur ops = true ->
+  (history_check cur ops os = true <-> history_ok cur ops os).
+Proof. intros Hv. split; [apply history_check_sound | apply history_check_complete]; exact Hv. Qed.
